@@ -26,7 +26,7 @@ static const char *g_phase = "";
 static char g_phase_buf[160];
 static void phase(const char *what, const std::string &arg = "") { snprintf(g_phase_buf, sizeof g_phase_buf, "%s %s", what, arg.c_str()); g_phase = g_phase_buf; }
 
-typedef int64_t (*universal_fn)(int64_t, int64_t, int64_t, int64_t, int64_t, int64_t, int64_t, int64_t, double, double, double);
+typedef int64_t (*universal_fn)(int64_t, int64_t, int64_t, int64_t, int64_t, int64_t, int64_t, int64_t, double, double, double, double, double, double, double, double);
 
 // ---------------------------------------------------------------------------------------------- fault handler
 static void crash_handler(int sig, siginfo_t *si, void *uc) {
@@ -98,7 +98,7 @@ struct LcSim : Harness {
     auto it = s->reenter_addr.find(tag);
     if (it != s->reenter_addr.end() && it->second && s->ext_depth < 3) {
       s->ext_depth++; s->C->count("ext_reentered_mir");
-      int64_t r = ((universal_fn) it->second)(1, v, 0, 0, 0, 0, 0, 0, 2.0, 3.0, 4.0) + 1; s->ext_depth--; return r;
+      int64_t r = ((universal_fn) it->second)(1, v, 0, 0, 0, 0, 0, 0, 2.0, 3.0, 4.0, 5.0, 6.0, 7.0, 8.0, 9.0) + 1; s->ext_depth--; return r;
     }
     return (int64_t) ((uint64_t) v * 3 + (uint64_t) tag);
   }
@@ -184,7 +184,7 @@ struct LcSim : Harness {
     const Json &al = kn.at("alloc");
     A.realloc_mode = (int) al.geti("realloc", 0); A.junk = (uint8_t) al.geti("junk", 0xA5); A.gap = (size_t) std::max<int64_t>(16, al.geti("gap", 16));
     A2.realloc_mode = A.realloc_mode; A2.junk = A.junk; A2.gap = A.gap;
-    K.policy = (int) kn.geti("placement", P_PACKED_FAR); K2.policy = P_PACKED_FAR;
+    K.policy = (int) kn.geti("placement", P_PACKED_FAR); K2.policy = P_PACKED_FAR; K.spread_gap = (uint64_t) kn.geti("placement_gap", 1ll << 32);
     phase("MIR_init2");
     ctx = MIR_init2(A.alloc(), K.alloc()); user_ctx_alive = true;
     MIR_set_error_func(ctx, err_func);
@@ -199,7 +199,7 @@ struct LcSim : Harness {
     if (mode == "C13") for (const char *nm : {"f", "g", "h"}) if (!sigs.count(nm)) { FuncInfo fi; fi.name = nm; fi.na = 1; sigs[nm] = fi; }  // names that only externals define
     mods.assign(prog_json->at("mods").size(), Mod()); fns.clear(); G.clear(); bound.clear(); bound_inlined.clear(); use_impl_bindings = false; pending.clear(); foreign.clear(); ext_log.clear(); reenter_addr.clear(); reenter_name.clear(); resolver_k.clear(); resolver_asked.clear();
     gen_on = c2m_on = ext_loaded = false; opt_level = 2; redef_allowed = false; ext_depth = 0; mdepth = 0; store.clear();
-    for (size_t mi = 0; mi < prog_json->at("mods").size(); mi++) for (auto &f : prog_json->at("mods")[mi].at("funcs").a) { Fn fn; fn.def = &f; fn.mod = (int) mi; prog::walk(f.at("body"), [&](const Json &st) { if (st[0].s == "lt") fn.has_lt = true; }); fns[f.gets("name")].push_back(fn); }
+    for (size_t mi = 0; mi < prog_json->at("mods").size(); mi++) for (auto &f : prog_json->at("mods")[mi].at("funcs").a) { Fn fn; fn.def = &f; fn.mod = (int) mi; prog::walk(f.at("body"), [&](const Json &st) { if (st[0].s == "lt" || st[0].s == "ld") fn.has_lt = true; }); fns[f.gets("name")].push_back(fn); }
     if (auto re = kn.find("reenter")) for (auto &p : re->o) reenter_name[atoll(p.first.c_str())] = p.second.s;
     if (auto rs = kn.find("resolver")) for (auto &p : rs->o) resolver_k[p.first] = (int) p.second.num();
     setup_model();
@@ -293,7 +293,8 @@ struct LcSim : Harness {
         if (!ok) { out.fail("harness_c_emitter", "c2mir_compile", "c2mir rejected the generated C for module " + std::to_string(mi)); return; }
         mods[mi].via = "c2m"; C->count("module_via_c2mir");
       } else {
-        if (uses(prog_json->at("mods")[mi], "lt")) return;  // binary MIR cannot carry lref items (known limitation outside the claimed properties)
+        if (uses(prog_json->at("mods")[mi], "lt") || uses(prog_json->at("mods")[mi], "ld")) return;
+        { bool gv = false; for (auto &f : prog_json->at("mods")[mi].at("funcs").a) if (f.geti("gv")) gv = true; if (gv) return; }  // nor functions with hard-register global variables (reader fails: outside the claimed properties)  // binary MIR cannot carry lref items (known limitation outside the claimed properties)
         // helper context: scan -> write -> finish (its own ledger), then read into the main context
         A2.reset(); K2.reset();
         phase("helper MIR_init2"); MIR_context_t h = MIR_init2(A2.alloc(), K2.alloc()); MIR_set_error_func(h, err_func);
@@ -476,14 +477,14 @@ struct LcSim : Harness {
     ext_log.clear(); ext_depth = 0; int64_t got;
     phase(interp ? "MIR_interp" : "call through address", n + fmt(" (iface %d, opt %d)", iface, opt_level));
     if (interp) {
-      MIR_val_t res, vals[16]; for (int i = 0; i < na; i++) vals[i].i = args[(size_t) i]; for (int i = 0; i < nd; i++) vals[na + i].d = 2.0 + i;
+      MIR_val_t res, vals[24]; for (int i = 0; i < na; i++) vals[i].i = args[(size_t) i]; for (int i = 0; i < nd; i++) vals[na + i].d = 2.0 + i;
       MIR_interp_arr(ctx, f->item, &res, (size_t) (na + nd), vals); got = res.i; f->interp_runs++; C->count("interp_runs");
       if (f->generated) C->count("interp_after_generation");
     } else {
       int64_t a[8] = {0}; for (int i = 0; i < na && i < 8; i++) a[i] = args[(size_t) i];
       void *addr = f->item->addr;
       if (f->addr_seen && f->addr_seen != addr) { out.fail("public_address_changed", "call", fmt("public address of %s changed from %p to %p", n.c_str(), f->addr_seen, addr)); return; }
-      got = ((universal_fn) addr)(a[0], a[1], a[2], a[3], a[4], a[5], a[6], a[7], 2.0, 3.0, 4.0); f->addr_calls++; C->count("address_calls");
+      got = ((universal_fn) addr)(a[0], a[1], a[2], a[3], a[4], a[5], a[6], a[7], 2.0, 3.0, 4.0, 5.0, 6.0, 7.0, 8.0, 9.0); f->addr_calls++; C->count("address_calls");
       if (iface == 3 && f->addr_calls == 1) C->count("gen_lazy_on_first_call");
       if (iface == 4) f->lazybb_entered = true;
     }
@@ -567,6 +568,7 @@ struct LcSim : Harness {
     kn.set("mode", m);
     al.set("realloc", (int) (r.chance(1, 2) ? 0 : r.range(1, 2))); al.set("junk", (int) (r.coin() ? 0xA5 : r.coin() ? 0xFF : 0)); al.set("gap", (int) (r.coin() ? 16 : 48));
     kn.set("alloc", al); kn.set("placement", (int) (r.chance(1, 3) ? P_PACKED_FAR : r.below(4)));
+    { static const long long G = 1ll << 30; static const long long gaps[] = {G, 2 * G - 8192, 2 * G + 8192, 3 * G, 4 * G - 8192, 4 * G, 4 * G + 8192, 6 * G}; kn.set("placement_gap", gaps[r.below(8)]); }
     prog::GenOpts go; go.nmods = (int) r.range(1, 3); go.nfuncs = (int) r.range(1, 3); go.body = (int) r.range(3, 7);
     bool big = r.chance(1, 8);   // large bodies: code that spans pages, many switch tables (absolute-address relocations)
     if (big) { go.body = (int) r.range(20, 70); go.nfuncs = (int) r.range(2, 5); }
@@ -630,7 +632,7 @@ struct LcSim : Harness {
     // optional re-entry of MIR from the external
     if (go.ext && r.chance(1, 2)) {
       Json re = Json::object();
-      for (auto &mo : prog.at("mods").a) for (auto &f : mo.at("funcs").a) { bool leaf = true; prog::walk(f.at("body"), [&](const Json &st) { if (st[0].s == "call" || st[0].s == "icall" || st[0].s == "ext" || st[0].s == "jt" || st[0].s == "lt") leaf = false; }); if (leaf && f.geti("na") >= 2 && re.size() < 2) re.set(std::to_string(1 + (int) re.size() * 2), f.gets("name")); }
+      for (auto &mo : prog.at("mods").a) for (auto &f : mo.at("funcs").a) { bool leaf = true; prog::walk(f.at("body"), [&](const Json &st) { if (st[0].s == "call" || st[0].s == "icall" || st[0].s == "ext" || st[0].s == "jt" || st[0].s == "lt" || st[0].s == "ld") leaf = false; }); if (leaf && f.geti("na") >= 2 && re.size() < 2) re.set(std::to_string(1 + (int) re.size() * 2), f.gets("name")); }
       if (re.size()) kn.set("reenter", re);
     }
     plan.set("knobs", kn); plan.set("prog", prog); plan.set("ops", ops);
@@ -665,7 +667,8 @@ struct LcSim : Harness {
       }
       return;
     }
-    if (e.cls != "crash") return;
+    if (e.cls != "crash" && e.cls != "hang") return;
+    bool was_hang = e.cls == "hang"; int tmo = was_hang ? 12 : hang_seconds();
     bool uses_bb = false; for (auto &op : plan.at("ops").a) if (op.k == Json::Arr && op.size() > 1 && op[0].s == "link" && op[1].num() % 5 == 4) uses_bb = true;
     for (int level = 0; level < 4; level++) {
       Json p = plan; Json ops = Json::array(); size_t nm = plan.at("prog").at("mods").size();
@@ -675,7 +678,8 @@ struct LcSim : Harness {
       for (size_t mi = 0; mi < nm; mi++) { push({"scan", (long long) mi}); push({"load", (long long) mi}); }
       push({"link", 2, 0});
       p.set("ops", ops); p["knobs"].erase("reenter"); p["knobs"].set("placement", (int) P_PACKED_FAR);
-      ChildEnd c = run_isolated(*this, p, hang_seconds(), false);
+      ChildEnd c = run_isolated(*this, p, tmo, false);
+      if (was_hang && c.status == "hang") { e.cls = "side_program_level_generator_hang"; e.sig = "watchdog"; e.detail = "the plain history scan/load/link(eager, -O" + std::to_string(level) + ") of the same program does not terminate within the watchdog either"; return; }
       if (c.status != "crash" && uses_bb) {  // the same with the lazy basic-block generator and the same calls
         Json q = p; Json &qo = q["ops"]; qo.a.back() = Json::array(); qo.a.back().push("link"); qo.a.back().push(4); qo.a.back().push(0);
         for (auto &op : plan.at("ops").a) if (op.k == Json::Arr && op.size() > 1 && (op[0].s == "call" || op[0].s == "interp")) { Json cc = op; cc[0] = Json("call"); qo.push(cc); }
